@@ -345,3 +345,75 @@ package cases
 //@   requires p != nil
 //@   loop 1 invariant a-stays: p.a == 3
 //@   ensures wrong: result == 3
+
+//@ func loopCallNoInvariant
+//@   property ENGINE
+//@   requires p != nil
+//@   ensures wrong: result == 3
+//@ func joinHeap
+//@   property ENGINE
+//@   requires p != nil
+//@   ensures wrong: result == old(p.a)
+//@   ensures right: c ==> result == 1
+//@ func (*holder).run
+//@   property ENGINE
+//@   requires h.fn != nil
+//@   ensures wrong: result == 1
+//@ func nestedLoops
+//@   property ENGINE
+//@   loop 1 invariant outer: s >= 0 && i >= 0
+//@   loop 2 invariant inner: s >= 0 && j >= 0
+//@   ensures right: result >= 0
+//@   ensures wrong: result == 0
+//@ func earlyReturn
+//@   property ENGINE
+//@   loop 1 invariant none-so-far: 0 <= i && i <= len(xs) && (forall k int :: 0 <= k && k < i ==> xs[k] != 0)
+//@   ensures right: result >= 0 ==> result < len(xs) && xs[result] == 0
+//@   ensures right-none: result == -1 ==> (forall k int :: 0 <= k && k < len(xs) ==> xs[k] != 0)
+//@   ensures wrong: result >= 0
+//@ func labeled
+//@   property ENGINE
+//@   loop 1 invariant outer: n >= 0 && i >= 0
+//@   loop 2 invariant inner: n >= 0 && j >= 0 && i >= 0 && i < len(xss)
+//@   ensures right: result >= 0
+//@   ensures wrong: result > 0
+//@ func mapLoop
+//@   property ENGINE
+//@   requires m != nil
+//@   ensures wrong: result == old(len(m))
+//@ func strBuild
+//@   property ENGINE
+//@   ensures wrong: len(result) == 0
+//@ func deleteKey
+//@   property ENGINE
+//@   requires m != nil
+//@   ensures right: !result
+//@   ensures wrong: result
+
+//@ type acct invariant nonneg: self.bal >= 0
+//@ func (*acct).deposit
+//@   property ENGINE
+//@ func readBal
+//@   property ENGINE
+//@   requires a != nil
+//@   ensures nonneg: result >= 0
+
+//@ iface shape.area
+//@   ensures nonneg: result >= 0
+//@ func total
+//@   property ENGINE
+//@   requires !isNil(x)
+//@   ensures nonneg: result >= 0
+
+//@ type wrap nonnil p
+//@ func readP
+//@   property ENGINE
+//@   requires w != nil
+
+//@ type counter guarded_by mu: n
+//@ func (*counter).inc
+//@   property ENGINE
+
+//@ type reg guarded_by mu: m
+//@ func (*reg).snapshot
+//@   property ENGINE
